@@ -41,7 +41,7 @@ def classify_exception(exc):
     """An uncaught exception out of run_case: SUT-originated or harness?"""
     tb = traceback.extract_tb(exc.__traceback__)
     frames = [f for f in tb]
-    repo_frames = [f for f in frames if f.filename.startswith("/repo/src")]
+    repo_frames = [f for f in frames if f.filename.startswith(common.REPO_SRC)]
     if repo_frames:
         f = repo_frames[-1]
         where = f"{os.path.basename(f.filename)}:{f.name}"
